@@ -442,8 +442,19 @@ func verifQM(args []string) string {
 			if err1 != nil || !ok {
 				return "!badop"
 			}
+			// as for w: only a record OutgoingQueue itself refreshed (or created) is re-stamped with the case's instant
+			var seenBefore time.Time
+			idx, had := inner.byAddr[verifAddr(a)]
+			if had {
+				seenBefore = inner.byAge[idx].LastSeen
+			}
 			och := conn.OutgoingQueue(verifAddr(a))
-			ch := inner.SendQueue(verifAddr(a), now)
+			var ch chan []byte
+			if idx2, has := inner.byAddr[verifAddr(a)]; has && had && inner.byAge[idx2].LastSeen.Equal(seenBefore) {
+				ch = inner.byAge[idx2].SendQueue
+			} else {
+				ch = inner.SendQueue(verifAddr(a), now)
+			}
 			idOf(ch)
 			if (<-chan []byte)(ch) != och {
 				return "!queue-identity"
